@@ -210,6 +210,11 @@ def drivePure : List String → Option String
     let pr ← prOf p
     let s ← dec s
     pure (encSet ((guardedStrSet pr (fun v => okvals.contains v) s).map Val.s))
+  | ["perlre", s] => (dec s).map fun s =>
+    match perlRe s with
+    | .ok pat fl => "ok\t" ++ enc pat ++ "\t" ++ enc fl
+    | .bad => "bad"
+    | .unm => "unm"
   | ["cache", l] => (decPairs l).map fun l => encPairs (cacheOf l)
   | ["esc", n] => (dec n).map fun n => enc (escapeName n)
   | ["unesc", n] => (dec n).map fun n => encRes (unescapeName n)
